@@ -375,7 +375,7 @@ def r9_let_chains(text):
 
 def r10_opt_closures(text):
     cnt = 0
-    pat = re.compile(r'((?:\w+)(?:\s*\.\s*\w+)*)\s*\.\s*(is_some_and|is_none_or)\(\s*\|(\w+)\|\s*')
+    pat = re.compile(r'((?:\w+)(?:\s*\.\s*\w+(?:\(\))?)*)\s*\.\s*(is_some_and|is_none_or)\(\s*\|(\w+)\|\s*')
     while True:
         m = pat.search(text)
         if not m:
